@@ -33,6 +33,14 @@ def check(ctx: Ctx) -> None:
     ctx.shared(c10_r2, "C10.R2", "C18.R9", "an existing table is never taken for an uninitialised one")
     from .c10 import r12 as c10_r12
     c10_r12(ctx, "C18.R10")
+    # the create-if-absent PUT decides who initialises: it is sent once (a retry after an ambiguous failure conflicts with its own
+    # first attempt: the creator deletes its v0 and every later creator 'loses' too)
+    from .c20 import r3 as c20_r3
+    ctx.shared(c20_r3, "C20.R3", "C18.R11", "the conditional pointer PUT is never retried")
+    # only initialize_table (check-then-act under the lock, CAS create) and commit write the pointer: a bulk / convenience
+    # creator writing it on its own has neither the re-check nor the conditional write
+    from .c09 import r1_fresh_names
+    r1_fresh_names(ctx, "C18.R12")
 
 
 def _check(ctx: Ctx) -> None:
